@@ -172,6 +172,8 @@ func main() {
 	vlen2 := flag.Int("vlen2", -1, "maximal length of the second value (default: vlen)")
 	input := flag.String("input", "", "replay: the recorded input (the whole bounded space is re-run, it takes a second)")
 	reps := flag.Int("reps", 5, "repetitions of every loader layout (scheduling)")
+	bigFiles := flag.Int("bigfiles", 1000, "files of the many-files loader run")
+	bigReps := flag.Int("bigreps", 40, "loads of the many-files tree")
 	out := flag.String("out", "", "result file")
 	flag.Parse()
 	_ = input
@@ -294,6 +296,43 @@ func main() {
 					}
 				}
 			}
+		}
+	}
+	// many files, so that several consumers of the loader's tree walk run its callback at the
+	// same time (schedules sampled): one unique key per file, every key must be translatable
+	for rep := 0; rep < *bigReps; rep++ {
+		res.Cases++
+		fs, _ := memfs.NewFilespace()
+		for f := 0; f < *bigFiles; f++ {
+			fs.WriteFile(fmt.Sprintf("d%d/f%d.json", f%7, f), []byte(fmt.Sprintf(`{"big%d":{"k":"value %d"}}`, f, f)), 0666)
+		}
+		i18 := i18mem.NewI18N()
+		var err error
+		func() {
+			defer func() {
+				if r := recover(); r != nil {
+					err = fmt.Errorf("panic: %v", r)
+				}
+			}()
+			err = fsi18loader.Load(fs, "./", i18, nil)
+		}()
+		if err != nil {
+			add(&failure{"loader", fmt.Sprintf("files=%d (one key each), load %d", *bigFiles, rep), err.Error()})
+			break
+		}
+		missing := 0
+		first := ""
+		for f := 0; f < *bigFiles; f++ {
+			if got, terr := i18.Translate(fmt.Sprintf("big%d.k", f)); terr != nil || got != fmt.Sprintf("value %d", f) {
+				if missing == 0 {
+					first = fmt.Sprintf("big%d.k", f)
+				}
+				missing++
+			}
+		}
+		if missing > 0 {
+			add(&failure{"loader-every-key-translatable", fmt.Sprintf("files=%d (one key each), load %d", *bigFiles, rep), fmt.Sprintf("%d keys are not translatable, first %s", missing, first)})
+			break
 		}
 	}
 	res.WallS = time.Since(start).Seconds()
